@@ -196,6 +196,7 @@ class CodonsSingleExonChunk(Case):
     """chunk-relative codons of a single-exon CDS, lifted back to the chromosome, are whole-chromosome codons
     (same reading frame) lying inside the chunk, starting with the first one that fits."""
     props = ("C05", "C07")
+    shard_depth = 5
     name = "CDSInterval chunk-relative codons = chromosome codons inside the chunk[single exon]"
     func = CDS + "._scan_codon_locations"
     call = ("(lambda ws: (len(ws), ws[k].lift_over_to_first_ancestor_of_type(SequenceType.CHROMOSOME)))"
@@ -447,7 +448,7 @@ class ChunkRelativeFrames(Case):
     def __init__(self, n, stranded=False):
         self.n, self.stranded = n, stranded
         self.tier = "thorough" if n >= 3 else "quick"
-        self.shard_depth = 4 if n >= 2 else 0
+        self.shard_depth = 7 if n >= 2 else 3
         self.name = f"CDSInterval.chunk_relative_frames[{n} exons{', chunk on either strand' if stranded else ''}]"
         self.call = ("([x.value for x in cds.chunk_relative_frames], [x.value for x in "
                      "CDSInterval.construct_frames_from_location(cds.chunk_relative_location, CDSFrame(fexp))])")
@@ -625,6 +626,63 @@ class CdsSequenceText(Case):
         return [o(r[0]), text if isinstance(text, str) else None, o(r[2])]
 
 
+class CdsSequenceTextCut(Case):
+    """single-exon CDS on a sequence chunk of EITHER strand that CUTS it (any window holding at least one complete
+    codon of the chromosome reading frame): the chunk-built CDS reads exactly the whole-chromosome codons that lie
+    fully inside the chunk - its coding sequence starts at the first such codon (offset (f - d5) mod 3 into the visible
+    part, d5 = CDS bases cut at the 5' end), has 3 * floor((V - offset) / 3) bases, base k = chromosome base at CDS
+    position d5 + offset + k; the chromosome-level codon count is unchanged (C07)."""
+    props = ("C05", "C07", "C03")
+    func = CDS + ".extract_sequence"
+    shard_depth = 5
+    name = "CDSInterval.extract_sequence[1 exon, chunk of either strand CUTTING the CDS, symbolic text]"
+    call = "(lambda s: (len(s), s, cds.num_codons, cds.num_chunk_relative_codons))(cds.extract_sequence())"
+    # known finding F-C07-1: start frame + cut offset >= 3 is not reduced modulo 3 (one codon lost)
+    _kf = dict(id="F-C07-1", carve=lambda i: i.f + Mod(-i.d5, 3) >= 3)
+    known = {"visible-complete-codons": _kf, "k-th-base-is-the-chromosome-base": _kf, "codon-counts": _kf}
+    ensures = {
+        "visible-complete-codons": lambda i, r: And(r[0] == 3 * Div(i.V - i.o, 3), Mod(r[0], 3) == 0),
+        "k-th-base-is-the-chromosome-base": lambda i, r: Implies(
+            And(0 <= i.k, i.k < r[0]), _tchar(r[1], i.k) == _chrom_base(i, _cds_pos(i, i.d5 + i.o + i.k))),
+        "codon-counts": lambda i, r: And(r[2] == Div(i.L - i.f, 3), r[3] == Div(i.V - i.o, 3)),
+    }
+
+    def inputs(self, S):
+        from .c04_liftover import chunk_parent_stranded
+        starts, ends = block_lists(S, "cds", 1)
+        strand = strand_of(S, "strand")
+        f = S.enum(FRAME, "frame")
+        S.assume(Not(enum_name_is(f, "NONE")))
+        if S.mode == "sym":
+            f = S.e.enum_concretize(f)
+        fv = f.value if not hasattr(f, "members") else f.members[f.idx][1]
+        cp, cs, ce, minus = chunk_parent_stranded(S)
+        s, e = starts[0], ends[0]
+        vs, ve = Max(s, cs), Min(e, ce)
+        V = ve - vs
+        plus = _is_plus(strand)
+        d5 = (vs - s) if plus else (e - ve)
+        o = Mod(fv - d5, 3)
+        S.assume(And(V > 0, V - o >= 3, (e - s) - fv >= 3))  # at least one complete codon visible
+        cds = S.new(CDS, starts, ends, strand, [f], parent_or_seq_chunk_parent=cp)
+        return NS(cds=cds, f=fv, L=e - s, V=V, o=o, d5=d5, k=S.int("k"), starts=starts, ends=ends, plus=plus, cs=cs,
+                  ce=ce, minus=minus, text=S.symstr("chunk_seq"))
+
+    def samples(self, rng):
+        s = rng.randint(2, 8)
+        e = s + rng.randint(6, 16)
+        cs = rng.randint(max(0, s - 2), e - 4)
+        ce = rng.randint(cs + 4, e + 2)
+        return dict(cds_starts=[s], cds_ends=[e], strand=rng.choice(["PLUS", "MINUS"]), frame=rng.choice(["ZERO", "ONE", "TWO"]),
+                    k=rng.randint(0, 9), chunk_start=cs, chunk_end=ce, chunk_strand=rng.choice(["PLUS", "MINUS"]),
+                    chunk_seq="".join(rng.choice("ACGT") for _ in range(ce - cs)))
+
+    def observe(self, r):
+        from pyvc.check import default_observe as o
+        text = r[1].sequence if hasattr(r[1], "attrs") else str(r[1])
+        return [o(r[0]), text if isinstance(text, str) else None, o(r[2]), o(r[3])]
+
+
 def _tchar(seq, k):
     t = seq.sequence if hasattr(seq, "attrs") else str(seq)
     if hasattr(t, "arr"):
@@ -643,7 +701,7 @@ def _chrom_base(i, p):
     return cb(i, p)
 
 
-CASES = [CdsSequenceText(1), CdsSequenceText(2), CdsOptimize("optimize_and_combine_blocks"), CdsOptimize("optimize_blocks"), ScanWindowsSingle(3), ScanWindowsSingle(1), PrepSingleExon(False), PrepSingleExon(True), PrepTwoExons(),
+CASES = [CdsSequenceTextCut(), CdsSequenceText(1), CdsSequenceText(2), CdsOptimize("optimize_and_combine_blocks"), CdsOptimize("optimize_blocks"), ScanWindowsSingle(3), ScanWindowsSingle(1), PrepSingleExon(False), PrepSingleExon(True), PrepTwoExons(),
          PrepExons(3), ChunkRelativeFrames(1, True), ChunkRelativeFrames(2, True), ChunkRelativeFrames(3, True),
          ConstructFrames(1), ConstructFrames(2), ConstructFrames(3), CodonsSingleExonChunk()]
 
@@ -686,3 +744,50 @@ class InFrameStop(Case):
 
 _AA = {"ATG": "M", "AAA": "K", "TAA": "*", "TGA": "*", "TAG": "*"}
 CASES.append(InFrameStop())
+
+
+class StartStopFlags(Case):
+    """the flags the NCBI table writer derives its partial marks from, on the complete domain of single-exon CDS with
+    start frame 0 / 1 / 2 (that many leading bases skipped), 2 codons over {ATG, TTG, AAA, TAA} and 0-1 trailing
+    bases, both strands, translation tables DEFAULT (ATG only) and PROKARYOTE: the start flag looks at the FIRST
+    IN-FRAME codon (not at the raw first triplet), has_valid_stop at the last complete codon; translate agrees."""
+    props = ("C05", "C17")
+    name = "CDSInterval start / stop flags[all frames x 2-codon sequences over 4 codons x trailing bases, both strands]"
+    func = CDS + ".has_start_codon_in_specific_translation_table"
+    module = "gene.cds"
+    call = ("(lambda c: (c.has_start_codon_in_specific_translation_table(TranslationTable[table]), c.has_valid_stop, "
+            "str(c.translate(translation_table=TranslationTable[table])), c.num_codons))(cds)")
+    ensures = {
+        "start-flag-is-about-the-first-in-frame-codon": lambda i, r: r[0] == (i.codons[0] in _STARTS[i.table]),
+        "valid-stop-iff-last-complete-codon-is-a-stop": lambda i, r: r[1] == (i.codons[-1] == "TAA"),
+        "protein-is-codon-wise-translation-with-the-start-rule": lambda i, r: r[2] == (
+            ("M" if i.codons[0] in _STARTS[i.table] else _AA2[i.codons[0]]) + "".join(_AA2[c] for c in i.codons[1:])),
+        "codon-count": lambda i, r: r[3] == len(i.codons),
+    }
+
+    def inputs(self, S):
+        codons = list(S.const("codons"))
+        plus, f, trail, table = S.const("plus"), S.const("frame"), S.const("trail"), S.const("table")
+        text = "G" * f + "".join(codons) + "C" * trail
+        if not plus:
+            text = "".join({"A": "T", "C": "G", "G": "C", "T": "A"}[ch] for ch in reversed(text))
+        genome = "CC" + text + "GG"
+        fn = S.fn("io.parser.seq_to_parent")
+        par = fn(genome, seq_id="chr1") if S.mode == "native" else S.e.call(fn, [genome], {"seq_id": "chr1"})
+        cds = S.new(CDS, [2], [2 + len(text)], S.enum_const(STRAND, "PLUS" if plus else "MINUS"),
+                    [S.enum_const(FRAME, ["ZERO", "ONE", "TWO"][f])], parent_or_seq_chunk_parent=par)
+        return NS(cds=cds, codons=codons, table=table, TranslationTable=S.cls("gene.codon.TranslationTable"))
+
+    def ground(self):
+        import itertools
+        for cs in itertools.product(("ATG", "TTG", "AAA", "TAA"), repeat=2):
+            for plus in (True, False):
+                for f in (0, 1, 2):
+                    for trail in (0, 1):
+                        for table in ("DEFAULT", "PROKARYOTE"):
+                            yield dict(codons=list(cs), plus=plus, frame=f, trail=trail, table=table)
+
+
+_AA2 = {"ATG": "M", "TTG": "L", "AAA": "K", "TAA": "*"}
+_STARTS = {"DEFAULT": {"ATG"}, "PROKARYOTE": {"ATG", "TTG"}}
+CASES.append(StartStopFlags())
